@@ -253,6 +253,11 @@ Section DelayProofs.
     all: try (split; [match goal with X : d_new _ = Some _ |- _ => rewrite X end; discriminate|assumption]).
     all: try (match goal with X : val_res _ = DVal _, Y : d_new _ = dcell _, Z : dcell _ = Some _ |- _ =>
                 rewrite Y, Z in X; simpl in X; inversion X; subst; apply (di_cell s I); assumption end).
+    destruct (dcell s) eqn:Hc; simpl; split.
+    - discriminate.
+    - apply mono_snoc_true; exact R2.
+    - intros _; apply R1; reflexivity.
+    - apply mono_all_false. rewrite forallb_rev. apply R1; reflexivity.
   Qed.
 
   Theorem dreach_DInv progs s : dreach (dinit progs) s -> DInv s.
